@@ -18,6 +18,7 @@ Inductive fobs :=
 | FDiag (kind : N) (d : diag).               (* 1 LoadError::Parse, 2 ReportError::BookKeep, 0 other *)
 
 Record case := { c_text : list N; c_kind : N; c_first : N; c_last : N; c_index : nat;
+                 c_whole : bool;   (* the error kind annotates the whole entry, not a tracked span *)
                  c_fake : fobs; c_cli : fobs }.
 
 Definition within (lo hi x : N) : bool := (lo <=? x) && (x <=? hi).
@@ -37,6 +38,13 @@ Definition spec_holds (c : case) : bool := leg_spec c (c_fake c) && leg_spec c (
 Definition line_of (bs : list N) (pos : N) : N :=
   match compute_line_number bs pos with Some l => l | None => 0 end.
 
+Definition tracked (p : pspans) : list span :=
+  a_posting p :: a_account p ::
+  (match a_amount p with Some t => [t] | None => [] end) ++
+  (match a_cost p with Some t => [t] | None => [] end) ++
+  (match a_lot_price p with Some t => [t] | None => [] end) ++
+  (match a_balance p with Some t => [t] | None => [] end).
+
 Definition leg_model (c : case) (f : fobs) : bool :=
   let bs := utf8_encode (c_text c) in
   match f with
@@ -55,7 +63,14 @@ Definition leg_model (c : case) (f : fobs) : bool :=
               let last := line_of bs (snd (e_span e) - 1) in
               (k =? 2) && (c_kind c =? 2) && (e_line_start e =? c_first c) && (last =? c_last c) &&
               forallb (within (e_line_start e) last) (d_gutter d) &&
-              match d_header d with Some (l, _) => within (e_line_start e) last l | None => false end
+              match d_header d with
+              | Some (l, _) =>
+                  (* the header names the line of the primary annotation: the start of the entry,
+                     or the start of one of its tracked spans *)
+                  if c_whole c then l =? e_line_start e
+                  else existsb (fun p => existsb (fun t => l =? line_of bs (fst t)) (tracked p)) (e_spans e)
+              | None => false
+              end
           | None => false
           end
       | _ => false
